@@ -264,3 +264,42 @@ Fixpoint objs (v : value) : list nat :=
   | VStr _ | VNone => []
   | VObj c vs => c :: (fix go (l : list value) : list nat := match l with [] => [] | x :: l' => objs x ++ go l' end) vs
   end.
+
+(* ------------------------------------------------------------------ specification *)
+(* rules referenced anywhere in an expression *)
+Fixpoint refs (e : expr) : list nat :=
+  match e with
+  | Term => []
+  | Ref r => [r]
+  | Seq es | Choice es => (fix go (l : list expr) : list nat := match l with [] => [] | x :: l' => refs x ++ go l' end) es
+  | Opt e' | Plus e' => refs e'
+  end.
+
+Definition body_refs (b : body) : list nat :=
+  match b with Alias t => [t] | Body e => refs e end.
+
+Definition rule_refs (g : list rule) (x : nat) : list nat := body_refs (r_body (rule_of g x)).
+
+(* The documented definition: a rule with assignments is not a match rule; a rule that
+   references a non-match rule is not a match rule; nothing else (least fixpoint). *)
+Inductive nonmatch (g : list rule) : nat -> Prop :=
+| nm_attrs x : r_attrs (rule_of g x) = true -> nonmatch g x
+| nm_ref x y : In y (rule_refs g x) -> nonmatch g y -> nonmatch g x.
+
+(* kind_spec g x k: k is the documented kind of rule x *)
+Definition kind_spec (g : list rule) (x : nat) (k : kind) : Prop :=
+  match k with
+  | KCommon => r_attrs (rule_of g x) = true
+  | KAbstract => r_attrs (rule_of g x) = false /\ exists y, In y (rule_refs g x) /\ nonmatch g y
+  | KMatch => ~ nonmatch g x
+  end.
+
+(* K is reachable from R through references of abstract rules to non-match rules *)
+Inductive reach (g : list rule) (K : nat -> kind) : nat -> nat -> Prop :=
+| reach_refl x : reach g K x x
+| reach_step x y z : K x = KAbstract -> In y (rule_refs g x) -> K y <> KMatch -> reach g K y z -> reach g K x z.
+
+(* reachability in the recorded inheritance lists *)
+Inductive ireach (inhf : nat -> list nat) : nat -> nat -> Prop :=
+| ireach_refl x : ireach inhf x x
+| ireach_step x y z : In y (inhf x) -> ireach inhf y z -> ireach inhf x z.
